@@ -74,6 +74,10 @@ pub struct Case {
     /// so that ids of completed operations are handed out again while others are outstanding
     #[serde(default)]
     pub rewinds: Vec<u8>,
+    /// padding (bytes of an extra attribute value) of entry PDUs, cycled over (op, seq); empty = none.
+    /// Large entries make the driver's read buffer grow and be re-used / re-allocated.
+    #[serde(default)]
+    pub pads: Vec<u32>,
 }
 
 pub fn start_id() -> BoxedStrategy<i32> {
@@ -108,14 +112,16 @@ fn strat(_: &Ctx) -> BoxedStrategy<Case> {
             .prop_map(|(before, kind)| Unsol { before, kind }),
         0..=4,
     );
-    (vec(op, 1..=12), vec(any::<u16>(), 100), vec(any::<bool>(), 1..6), unsol, chunk_plan(), any::<u64>(), start_id(), prop_oneof![2 => Just(vec![]), 1 => vec(prop_oneof![2 => Just(0u8), 1 => 1u8..8], 12)])
-        .prop_map(|(ops, ranks, glue, unsol, (chunks, yields), sched, start_id, rewinds)| {
+    (vec(op, 1..=12), vec(any::<u16>(), 100), vec(any::<bool>(), 1..6), unsol, chunk_plan(), any::<u64>(), start_id(), prop_oneof![2 => Just(vec![]), 1 => vec(prop_oneof![2 => Just(0u8), 1 => 1u8..8], 12)], prop_oneof![5 => Just(vec![]), 1 => vec(prop_oneof![2 => Just(0u32), 1 => proptest::sample::select(&[9_000u32, 20_000, 41_000, 70_000, 100_000, 150_000, 300_000][..])], 1..5)])
+        .prop_map(|(ops, ranks, glue, unsol, (chunks, yields), sched, start_id, rewinds, pads)| {
             // a stream dropped without finish() releases its id while the server may still send items under
             // it; re-using that id is then ambiguous by protocol, so such cases keep the counter monotonic
             // (the same holds for a server that sends one more PDU under the id of a completed operation)
             let ambiguous = ops.iter().any(|o: &OpSpec| matches!(o.kind, OpKind::SearchDropped(..))) || unsol.iter().any(|u: &Unsol| matches!(u.kind, UnsolKind::LateResult | UnsolKind::LateEntry));
             let rewinds = if ambiguous { vec![] } else { rewinds };
-            Case { ops, ranks, glue, unsol, chunks, yields, sched, start_id, rewinds }
+            // big entries with byte-sized reads would cost seconds per case: scale the read plan up
+            let chunks = if pads.iter().any(|p| *p > 0) { chunks.iter().map(|c: &usize| c.saturating_mul(3001)).collect() } else { chunks };
+            Case { ops, ranks, glue, unsol, chunks, yields, sched, start_id, rewinds, pads }
         })
         .boxed()
 }
@@ -140,8 +146,9 @@ fn token(op: usize, seq: usize) -> String {
     format!("tok-{}-{}", op, seq)
 }
 
-fn pdu_msg(id: i64, kind: &OpKind, item: Option<Item>, tok: &str) -> RespMsg {
+fn pdu_msg(id: i64, kind: &OpKind, item: Option<Item>, tok: &str, pad: u32) -> RespMsg {
     let resp = match item {
+        Some(Item::Entry) if pad > 0 => Resp::Entry(Entry { dn: tok.to_string(), attrs: vec![("cn".into(), vec![b"v".to_vec()]), ("pad".into(), vec![vec![0x70; pad as usize]])] }),
         Some(Item::Entry) => Resp::Entry(Entry { dn: tok.to_string(), attrs: vec![("cn".into(), vec![b"v".to_vec()])] }),
         Some(Item::Reference) => Resp::Reference(vec![tok.to_string()]),
         Some(Item::Intermediate) => Resp::Intermediate { name: Some("1.2.3".into()), val: Some(tok.as_bytes().to_vec()) },
@@ -315,7 +322,8 @@ async fn server(wire: sim::Wire, case: Case) -> ServerLog {
             let outstanding = (0..n).filter(|&i| log.wire_id.contains_key(&i) && next[i] < pdus[i].len()).count();
             log.outstanding_max = log.outstanding_max.max(outstanding);
             let seq = next[op];
-            let msg = pdu_msg(log.wire_id[&op], &case.ops[op].kind, pdus[op][seq], &token(op, seq));
+            let pad = if case.pads.is_empty() { 0 } else { case.pads[(op * 7 + seq) % case.pads.len()] };
+            let msg = pdu_msg(log.wire_id[&op], &case.ops[op].kind, pdus[op][seq], &token(op, seq), pad);
             batch.extend_from_slice(&msg.encode());
             log.sent.push((op, seq));
             next[op] += 1;
@@ -493,6 +501,9 @@ pub fn check(case: &Case, obs: &mut Obs) -> Result<(), Fail> {
     }
     if case.chunks == vec![1] {
         obs.label("1-byte-reads");
+    }
+    if case.pads.iter().any(|p| *p > 16_384) {
+        obs.label("entries>16KiB");
     }
     if case.rewinds.iter().take(case.ops.len()).any(|k| *k > 0) {
         obs.label("id-counter-rewound");
